@@ -12,7 +12,7 @@ EXTENDS Naturals, Sequences, FiniteSets, TLC
 
 Kinds == {"open-host", "open-domain", "open-swver", "open-unknown-cap",
           "notif-shutdown", "notif-reset", "notif-data",
-          "upd-unknown-attr", "upd-ls-node-name", "upd-ls-opaque", "upd-sid-twice", "upd-sid-srgb-twice",
+          "upd-unknown-attr", "upd-ls-node-name", "upd-ls-opaque", "upd-sid-twice", "upd-sid-srgb-twice", "upd-aggr-both", "upd-sid-srv6-subsub-twice", "upd-sid-srv6-sub-twice",
           "oper-adm", "oper-asm", "oper-unknown",
           "state-down", "negotiated"}
 \* the bytes the peer puts in the slot
@@ -20,7 +20,7 @@ Payloads == {"plain", "quote", "bslash", "newline", "cr", "tab", "ctrl", "del", 
 Encoders == {"json", "text"}
 Versions == {4, 6}
 \* kinds whose slot holds no free bytes: only one payload makes sense
-Fixed == {"upd-sid-twice", "upd-sid-srgb-twice", "state-down", "negotiated"}
+Fixed == {"upd-sid-twice", "upd-sid-srgb-twice", "upd-aggr-both", "upd-sid-srv6-subsub-twice", "upd-sid-srv6-sub-twice", "state-down", "negotiated"}
 Modes == {"parsed", "consolidate"}                      \* consolidate: the raw header and body travel with the parsed event
 Rows == {r \in [kind : Kinds, pay : Payloads, enc : Encoders, version : Versions, mode : Modes] : r.kind \in Fixed => (r.pay = "plain" /\ r.mode = "parsed")}
 
